@@ -211,8 +211,15 @@ class PoolStub:
     def _absint_exit(self):
         self.started = False
 
+    # tasks are taken in the order of the iterable, or - for scenarios that ask for it - in the opposite order (a set
+    # of tasks has no order of its own: what a worker leaves behind must not matter whichever task comes next)
+    reverse_tasks = False
+
     def _run(self, fn, items):
-        return [self._it.call_value(fn, [x], {}, self._ev, None) for x in list(items)]
+        items = list(items)
+        if PoolStub.reverse_tasks:
+            return list(reversed([self._it.call_value(fn, [x], {}, self._ev, None) for x in reversed(items)]))
+        return [self._it.call_value(fn, [x], {}, self._ev, None) for x in items]
 
     def map(self, fn, items, chunksize=None):
         self._chunk(chunksize)
